@@ -107,7 +107,7 @@ def run_case(case):
     cfg = case["cfg"]
     w = RWorld(workers=cfg["workers"], timeout=0, graceful=1, binds=BIND_CHOICES[cfg["bind"]], rand=0.0)
     w.binds_loaded = list(w.binds)
-    w.want_start = True
+    w.want_start = not case.get("prelude")      # prelude: the snapshot is taken after the ("START",) label of the script
     w.seq = []
     orig_kill, orig_fork = w.k_kill, w.k_fork
 
@@ -161,6 +161,11 @@ _orig_apply = A.World2.apply_env
 
 
 def _apply_env(self, lab):
+    if lab[0] == "START":
+        # end of the prelude (TTIN / TTOU before the first reload): from the next idle visit of the top of the loop on, the
+        # run is observed and compared with Model/Reload.v started in THAT state (num_workers != cfg.workers)
+        self.want_start = True
+        return
     if lab[0] == "XT":
         k = self.kid(lab[1])
         if k is not None and k["st"] == "R" and int(_signal.SIGTERM) in k["sigs"]:
@@ -285,6 +290,9 @@ def judge(case, w):
 M = ("M",)
 
 
+TTIN, TTOU = int(_signal.SIGTTIN), int(_signal.SIGTTOU)
+
+
 def fixed_cases():
     cs = []
     boot = [M] * 30
@@ -311,6 +319,15 @@ def fixed_cases():
                        "script": boot + [("S", SIG["HUP"])] + [M] * i + [("LTk", 0)] + [M] * 8 + [("LTk", 1)] + [M] * 30})
     cs.append({"cfg": {"workers": 2, "bind": 0}, "kind": "lost-term", "lost": True, "tail_loops": 10,
                "script": boot + [("S", SIG["HUP"])] + [M] * 6 + [("S", SIG["HUP"])] + [M] * 30 + [("LTk", 0), ("LTk", 0)] + [M] * 30})
+    # TTIN / TTOU have resized the pool before the reload: "the newly configured number" all the same
+    for nw in (1, 2, 3):
+        for pre in ([TTIN], [TTIN, TTIN], [TTOU], [TTOU, TTIN, TTIN]):
+            for edit in ([], [("E", 1, 0)], [("E", 3, 0)]):
+                sc = list(boot)
+                for sg in pre:
+                    sc += [("S", sg)] + [M] * 14 + [("XTk", 0), ("C",)] + [M] * 8
+                sc += [("START",)] + [M] * 4 + edit + [("S", SIG["HUP"])] + [M] * 40
+                cs.append({"cfg": {"workers": nw, "bind": 0}, "kind": "resized", "prelude": True, "tail_loops": 10, "script": sc})
     # a NEW worker dies inside the reload window (not in the property's quantifier: side finding)
     for i in range(4, 12):
         cs.append({"cfg": {"workers": 2, "bind": 0}, "kind": "window-death", "crashes": True,
@@ -322,6 +339,11 @@ def gen_random(rng):
     nw = rng.choice([0, 1, 2, 2, 3])
     script = [M] * 30
     crashes = False
+    prelude = rng.random() < 0.2
+    if prelude:
+        for _ in range(rng.randint(1, 3)):
+            script += [("S", rng.choice([TTIN, TTIN, TTOU]))] + [M] * rng.choice([10, 14, 20]) + [("XTk", 0), ("C",)] + [M] * rng.choice([4, 8])
+        script += [("START",)] + [M] * rng.choice([2, 4, 9])
     for _ in range(rng.randint(1, 6)):
         x = rng.random()
         if x < 0.35:
@@ -344,12 +366,13 @@ def gen_random(rng):
         script += [M] * rng.choice([0, 1, 2, 3, 5, 8, 13, 21])
     rebinds = any(l[0] == "B" for l in script)
     return {"cfg": {"workers": nw, "bind": 0 if rebinds or rng.random() < 0.7 else 3}, "script": script, "kind": "random",
-            "crashes": crashes, "tail_loops": 8}
+            "crashes": crashes, "tail_loops": 8, "prelude": prelude}
 
 
 def describe(case):
     return {"cfg": case["cfg"], "schedule": [list(x) for x in case["script"]],
-            "tail_loops": case.get("tail_loops", 6), "crashes": case.get("crashes", False), "lost": case.get("lost", False)}
+            "tail_loops": case.get("tail_loops", 6), "crashes": case.get("crashes", False), "lost": case.get("lost", False),
+            "prelude": bool(case.get("prelude"))}
 
 
 def run_sim(ctx):
@@ -426,14 +449,22 @@ import lib_arb2_real as R
 LATE = 1.0
 
 
-def reload_scenario(cls, phase, hups=1, bind="unix", new_workers=3, d=1.6, two_binds=False):
-    """-> (failures, trace).  failures starting with KNOWN:<key> are reported under that key"""
+def reload_scenario(cls, phase, hups=1, bind="unix", new_workers=3, d=1.6, two_binds=False, resize=None):
+    """-> (failures, trace).  failures starting with KNOWN:<key> are reported under that key.
+    resize: "ttin" / "ttou" sent to the master (and the pool left to follow) before anything else: the reload must give
+    the newly configured number of workers whatever the number was before"""
     fails, tr = [], []
     srv = R.Server(worker_class=cls, workers=2, graceful=6, bind=bind, marker="m0", keepalive=8, second_bind=two_binds)
     load = None
     try:
         srv.start()
         master = srv.master
+        if resize:
+            want = 3 if resize == "ttin" else 1
+            srv.signal(_signal.SIGTTIN if resize == "ttin" else _signal.SIGTTOU, master)
+            if not R.wait_for(lambda: len(srv.children()) == want, 15):
+                fails.append("harness: %s did not bring the pool to %d workers: %r" % (resize, want, sorted(srv.children())))
+            tr.append(("resized by", resize, sorted(srv.children())))
         old = set(srv.children())
         tr.append(("old workers", sorted(old)))
         load = R.Load(srv, period=0.04, d=0.03)
@@ -525,7 +556,8 @@ def run_real(ctx):
     if ctx.quick():
         scns = [("sync", "app", 1, "unix", 3), ("gthread", "head", 2, "tcp", 1), ("sync", "idle", 2, "unix", 2), ("gevent", "resp", 1, "unix", 3),
                 ("gevent", "app", 1, "unix", 2, 1.6, True), ("eventlet", "app", 1, "tcp", 2, 1.6, True),
-                ("gthread", "app", 1, "unix", 2, 1.6, True), ("sync", "resp", 1, "unix", 2, 1.6, True)]
+                ("gthread", "app", 1, "unix", 2, 1.6, True), ("sync", "resp", 1, "unix", 2, 1.6, True),
+                ("sync", "app", 1, "unix", 2, 1.6, False, "ttin"), ("gthread", "keep", 1, "tcp", 2, 1.6, False, "ttou")]
     else:
         scns = []
         for cls in ("sync", "gthread", "gevent", "eventlet"):
@@ -534,6 +566,10 @@ def run_real(ctx):
                     scns.append((cls, ph, hups, "tcp" if len(scns) % 3 == 0 else "unix", [1, 3, 2][len(scns) % 3]))
                 # the same with a second, idle listener: the old worker must not take the idle one for "nothing in flight"
                 scns.append((cls, ph, 1, "unix", 2, 1.6, True))
+            # TTIN / TTOU first: the reload gives the configured number all the same
+            scns.append((cls, "app", 1, "unix", 2, 1.6, False, "ttin"))
+            scns.append((cls, "head", 2, "tcp", 2, 1.6, False, "ttou"))
+            scns.append((cls, "resp", 1, "unix", 3, 1.6, False, "ttin"))
     results = [None] * len(scns)
 
     def work(i):
